@@ -323,6 +323,14 @@ def suites(tier, seed):
         p = rc.gen_program(rnd)
         if i % 2:
             p = rc.with_random_faults(rnd, p, p_fault=0.7)
+        if i % 5 == 3:
+            # scenarios without steps of their own whose only steps are the inherited background steps
+            for f in p["features"]:
+                for it in f["items"]:
+                    inherited = bool(f["bg"]) or (it["kind"] == "rule" and bool(it["bg"]))
+                    for x in (it["items"] if it["kind"] == "rule" else [it]):
+                        if inherited and x["kind"] == "scenario" and rnd.random() < 0.6:
+                            x["steps"] = []
         progs.append(p)
     out.append({"name": "reachable", "cases": progs, "impl": rc.impl_run, "oracle": oracle_reachable,
                 "nontrivial": lambda c, o: len(set(s for t in o.get("tree", []) for s in _all_statuses(t))) >= 2,
